@@ -3,6 +3,7 @@ mod common;
 mod eng_bereq;
 mod daemon_conc;
 mod daemon_seq;
+mod daemon_shut;
 mod eng_client;
 mod eng_daemon;
 mod eng_gpu;
